@@ -438,6 +438,7 @@ type FuncContract struct {
 	Covers    []*Clause
 	Asserts   []*Clause
 	Inline    bool
+	NoFrame   bool // the modifies clause is what callers see; the body's frame is assumed, not checked (listed)
 	ModifiesAll bool
 	CallAsserts []*CallAssert
 }
@@ -504,7 +505,7 @@ type ContractFile struct {
 
 var clauseKeywords = map[string]bool{"requires": true, "ensures": true, "modifies": true, "loop": true, "prop": true, "nopanic": true,
 	"trusted": true, "defines": true, "trusted-ensures": true, "covers": true, "func": true, "extern": true, "pure": true, "rec": true, "uninterp": true, "axiom": true, "lemma": true,
-	"ghost": true, "effectfree": true, "type-invariant": true, "relayed": true, "exempt": true, "import": true, "inline": true, "assert": true, "assert-call": true}
+	"ghost": true, "effectfree": true, "type-invariant": true, "relayed": true, "exempt": true, "import": true, "inline": true, "noframe": true, "assert": true, "assert-call": true}
 
 // ParseContractFile reads //@ lines from a file.
 func ParseContractFile(path, pkg string) (*ContractFile, error) {
@@ -591,6 +592,8 @@ func ParseContractText(text, path, pkg string) (*ContractFile, error) {
 			cur.Trusted = true
 		case "inline":
 			cur.Inline = true
+		case "noframe":
+			cur.NoFrame = true
 		case "requires", "ensures", "covers", "assert", "defines", "trusted-ensures":
 			if cur == nil {
 				return nil, fail(l.n, "%s outside func", kw)
